@@ -6,7 +6,7 @@ HOOKS = {
     "enable": "go1.26.8 test -tags verif (harness module /verif/harness, replace github.com/tsuna/gohbase => /repo); "
               "if the hook files are absent from /repo the driver injects copies with -overlay",
     "baseline_off_cmd": "cd /repo && go test -vet=off -count=1 -timeout 25m ./...",
-    "source_commits": ["4fc7d7a", "eb3db2f", "08a7e0b", "df90f0b"],
+    "source_commits": ["4fc7d7a", "eb3db2f", "08a7e0b", "df90f0b", "0b20721"],
     "add_only": True,
 }
 
@@ -292,6 +292,8 @@ prop("C04", "exploration",
      "unchanged, unretried; each exception class triggers the reaction the property names.",
      "Trusted: the simulated cluster (my reading of HBase's reactions), virtual horizon of 10 minutes as 'eventually'.",
      [
+         {"test": "TestC04_AdminSurvival", "quick": {"checks": 1500, "shards": 4, "timeout": 300},
+          "thorough": {"checks": 20000, "shards": 16, "timeout": 1500}},
          {"test": "TestC04_FaultSurvival", "quick": {"checks": 5000, "shards": 4, "timeout": 300},
           "thorough": {"checks": 50000, "shards": 16, "timeout": 2400}},
          {"test": "TestC04_FaultSurvival", "tag": "race", "thorough": {"checks": 3000, "shards": 4, "timeout": 3000, "race": True}},
